@@ -44,7 +44,7 @@ ASSUMPTIONS = [
     "supports_batching itself is C13's subject; here the tracked mode is compared with it",
 ]
 
-PREFS = V.UNIVERSE + [None, V.OUTSIDE, ""]
+PREFS = [None] + V.UNIVERSE + [V.OUTSIDE, ""]
 VERSION_ANSWERS = V.UNIVERSE + [V.OUTSIDE, "", "2025-06-18 "]
 
 
